@@ -207,6 +207,12 @@ def g_gammastd_grp(rng, cls, dtype):
     groups = (np.arange(n) % k).astype(np.int16)
     if cls == "random":
         groups = np.sort(groups) if rng.random() < 0.5 else groups
+    if cls != "min" and k > 1 and rng.random() < 0.5:
+        # uneven, non-periodic layouts (seasons of 7 and 5 months, one dominant group): every group keeps >= 1 member
+        w = rng.dirichlet(np.full(k, 0.4))
+        groups = rng.choice(k, n, p=w)
+        groups[rng.choice(n, k, replace=False)] = np.arange(k)
+        groups = (np.sort(groups) if rng.random() < 0.5 else groups).astype(np.int16)
     x = _gamma(rng, n, dtype)
     cal = np.zeros((k, 2), dtype=np.int16)
     for g in range(k):
@@ -316,6 +322,11 @@ def g_mean_grp(rng, cls, dtype):
     n = _n(rng, cls, lo=1, edge=(1, 2, 3, 5), hi=80)
     k = 1 if cls == "min" else int(rng.choice([1, min(n, 2), min(n, 5), n]))
     groups = (rng.permutation(n) % k).astype(np.int16)
+    if cls != "min" and k > 1 and rng.random() < 0.5:
+        w = rng.dirichlet(np.full(k, 0.4))
+        groups = rng.choice(k, n, p=w)
+        groups[rng.choice(n, k, replace=False)] = np.arange(k)
+        groups = groups.astype(np.int16)
     x = rng.integers(0, 300 if rng.random() < 0.5 else 9000, n).astype(np.float64)  # sums beyond int16 in the second class
     x[rng.random(n) < 0.3] = -9999
     return [x.astype(dtype), groups, k, -9999.0]
